@@ -30,6 +30,8 @@ type MachOpts struct {
 	HandlerTimeout time.Duration
 	QueueLimit     uint16
 	Id             string
+	// Pre are tracers placed before the recording ones
+	Pre []am.Tracer
 }
 
 // New creates a machine for spec with a recording tracer (and more tracers if
@@ -40,7 +42,7 @@ func New(spec gen.SchemaSpec, o MachOpts) (*Mach, []*rec.Tracer) {
 		n = 1
 	}
 	var trs []*rec.Tracer
-	var amtr []am.Tracer
+	amtr := append([]am.Tracer{}, o.Pre...)
 	for i := 0; i < n; i++ {
 		t := rec.NewTracer(fmt.Sprintf("rec%d", i))
 		trs = append(trs, t)
